@@ -11,4 +11,5 @@ INVARIANT SparseZeroUntilEnd
 INVARIANT WithinHorizon
 INVARIANT EarlyLastIsCompletion
 INVARIANT CompletionEnds
+VIEW RoutesView
 CHECK_DEADLOCK FALSE
